@@ -86,9 +86,22 @@ def mps_worker(job: dict) -> dict:
                 res2 = None
         out["stage"] = "reference"
         slm_end = float(seq._slm_mask_time[1]) if len(seq._slm_mask_time) > 1 else 0.0
+        kind = job.get("kind", "rydberg")
         full = np.asarray(data.interaction_matrix(1e18).detach().numpy(), dtype=float)
         masked = np.asarray(data.interaction_matrix(-1.0).detach().numpy(), dtype=float)
-        kind = job.get("kind", "rydberg")
+        if kind == "rydberg":
+            # interaction matrices from the REGISTER (independent of the adapter): C6 / r^6, cutoff, SLM-masked atoms decoupled
+            full = seqs.ref_interaction(seq, "rydberg")
+            full[np.abs(full) < float(job.get("cutoff", 0.0))] = 0.0
+            masked = full.copy()
+            for q in getattr(seq, "_slm_mask_targets", []) or []:
+                j_ = ids.index(str(q))
+                masked[j_, :] = 0.0
+                masked[:, j_] = 0.0
+        else:
+            # XY: Pulser's angular C3 factor is taken from the adapter; symmetry and masking are still demanded
+            full = 0.5 * (full + full.T) if np.allclose(full, full.T) else full * np.nan
+            masked = masked if np.allclose(masked, masked.T) else masked * np.nan
 
         def allowed(k: int) -> list[np.ndarray]:
             a, b = T[k], T[k + 1]
@@ -112,7 +125,7 @@ def mps_worker(job: dict) -> dict:
             if len(cands) > 1 and k < len(imats):
                 m = np.asarray(imats[k]["matrix"], dtype=float)[np.ix_(inv, inv)]
                 for c in cands:
-                    if np.allclose(m, c, atol=1e-12):
+                    if np.allclose(m, c, rtol=1e-9, atol=1e-12):
                         pick = c
             used.append(pick)
         states, hams = seqs.ref_unitary_run(om, de, ph, T, lambda k: used[k], psi0=psi0, kind=kind)
@@ -133,7 +146,7 @@ def mps_worker(job: dict) -> dict:
 
         def mat_atom(e: dict) -> bool:
             m = np.asarray(e["matrix"], dtype=float)
-            return any(m.shape == c.shape and np.allclose(m, c[np.ix_(perm, perm)], atol=1e-12) for c in (masked, full))
+            return any(m.shape == c.shape and np.allclose(m, c[np.ix_(perm, perm)], rtol=1e-9, atol=1e-12) for c in (masked, full))
 
         ref.row = row_atom
         ref.mat = mat_atom
